@@ -23,7 +23,7 @@ from ..rundir import GEN as _GEN  # noqa: E402
 EXTRA_PROOF_FILES = ["generated/Facts_coercers.v"]
 ASSUMPTIONS = [
     "the stdlib constructors (Decimal, UUID, date/datetime.fromisoformat) are oracles: each case carries the real result of the real constructor",
-    "round-trip of canonical text: proved for UUIDs against the concrete text model of Model/Text.v (which is compared with the stdlib on every run); for Decimal / date / datetime it is a stdlib property that is sampled, not proved",
+    "round-trip of canonical text: proved for UUIDs and dates against the concrete text model of Model/Text.v (which is compared with the stdlib on every run); for Decimal / datetime it is a stdlib property that is sampled, not proved",
     "treatment of subclasses of the *source* types (str subclasses, bool as int) is outside the claim",
 ]
 TRUSTED_EXTRA = ["fact translator harness/facts/coercers.py (python ast) regenerates coq/generated/Facts_coercers.v from /repo on every run"]
@@ -216,8 +216,9 @@ def roundtrip(rng: random.Random, tier: str) -> List[dict]:
 
 def text_model(rng: random.Random, tier: str) -> List[dict]:
     """Model/Text.v against CPython: str(UUID) = uuid_str, UUID(s) against uuid_parse (sound everywhere, exact on
-    texts made of hex digits, dashes and braces), Decimal(int) = dec_of_int.  The round-trip theorem
-    C16_uuid_roundtrip is about these definitions; this family is what ties them to the stdlib."""
+    texts made of hex digits, dashes and braces), Decimal(int) = dec_of_int, date.isoformat = date_iso,
+    date.toordinal = ymd2ord, date.fromisoformat against date_parse (sound everywhere).  The round-trip theorems
+    C16_uuid_roundtrip / C16_date_roundtrip are about these definitions; this family is what ties them to the stdlib."""
     from concurrent.futures import ThreadPoolExecutor
     from ..corr import GEN, HEADER, run_coq_file
     from ..lang import coq
@@ -261,6 +262,45 @@ def text_model(rng: random.Random, tier: str) -> List[dict]:
         lines.append((f"(uuid_agree {zl(s_)} {'None' if py is None else '(Some (' + str(py) + '))'})", "true", f"UUID({s_!r}) -> {py!r}"))
     for z in [0, 1, -1, 10, -10, 255, 10 ** 30, -(10 ** 30), 2 ** 70] + [rng.randrange(-10 ** 20, 10 ** 20) for _ in range(n_u // 2)]:
         lines.append((f"(dec_of_int ({z}))", coq(from_py(Decimal(z), None)), f"Decimal({z})"))
+    # dates: isoformat / toordinal / fromisoformat against date_iso / ymd2ord / date_parse
+    n_d = 60 if tier == "quick" else 1500
+    dts_ = [date.min, date.max, date(2020, 2, 29), date(2000, 2, 29), date(1900, 2, 28), date(1900, 3, 1), date(2100, 3, 1), date(400, 12, 31), date(401, 1, 1),
+            date(1999, 12, 31), date(4, 2, 29), date(100, 3, 1), date(9999, 1, 1), date(1, 12, 31), date(2, 1, 1)]
+    dts_ += [date(y_, m_, 1) for y_ in (1, 99, 100, 400, 1600, 1900, 2000, 2024, 9999) for m_ in range(1, 13)]
+    dts_ += [date(y_, m_, 28) + timedelta(days=k_) for y_ in (1900, 2000, 2023, 2024) for m_ in (2, 4, 12) for k_ in (0, 1, 2) if (y_, m_, k_) != (9999, 12, 2)]
+    dts_ += [date.fromordinal(rng.randrange(1, date.max.toordinal() + 1)) for _ in range(n_d)]
+    for dt_ in dts_:
+        lines.append((f"(date_iso {dt_.year} {dt_.month} {dt_.day})", zl(dt_.isoformat()), f"date({dt_.year}, {dt_.month}, {dt_.day}).isoformat()"))
+        lines.append((f"(ymd2ord {dt_.year} {dt_.month} {dt_.day})", f"({dt_.toordinal()})", f"date({dt_.year}, {dt_.month}, {dt_.day}).toordinal()"))
+    dalpha = "0123456789-"
+    dstrs: List[str] = ["", "-", "0000-01-01", "0001-01-01", "9999-12-31", "10000-01-01", "2020-02-30", "2021-02-29", "1900-02-29", "2000-02-29", "2020-13-01",
+                        "2020-00-10", "2020-01-00", "2020-01-32", "2020-04-31", "2020-1-01", "2020-01-1", "20200101", "2020-0101", "202001-01", "2020-W01-1", "2020-001",
+                        "2020/01/01", "2020-01-01 ", " 2020-01-01", "2020-01-01T00:00:00", "\u0662\u0660\u0662\u0660-01-01", "2020-01-0\u0661", "+020-01-01", "2020--1-01", "2020-01-01-"]
+    for dt_ in dts_[: max(25, n_d // 2)]:
+        s_ = dt_.isoformat()
+        dstrs += [s_, s_.replace("-", ""), s_[:-1], s_ + "0"]
+        for _ in range(3):
+            t = list(s_)
+            for _ in range(rng.randrange(1, 3)):
+                k = rng.randrange(0, len(t) + 1)
+                op = rng.randrange(3)
+                pool = dalpha if rng.random() < 0.8 else hostile
+                if op == 0 and t:
+                    t[min(k, len(t) - 1)] = rng.choice(pool)
+                elif op == 1:
+                    t.insert(k, rng.choice(pool))
+                elif t:
+                    del t[min(k, len(t) - 1)]
+            dstrs.append("".join(t))
+    n_dsome = 0
+    for s_ in dstrs:
+        try:
+            py = date.fromisoformat(s_).toordinal()
+            n_dsome += 1
+        except ValueError:
+            py = None
+        lines.append((f"(date_agree {zl(s_)} {'None' if py is None else '(Some (' + str(py) + '))'})", "true", f"date.fromisoformat({s_!r}) -> ordinal {py!r}"))
+    TEXT_STATS.update({"dates_printed_and_counted": len(dts_), "date_texts_parsed": len(dstrs), "of_which_accepted_by_fromisoformat": n_dsome})
     os.makedirs(GEN, exist_ok=True)
     hdr = HEADER.replace("Corr.Check.", "Corr.Check Model.Text.")
     files = []
